@@ -206,7 +206,42 @@ def sc_sigint_during_sync(sc, base, r, delete):
     return fails
 
 
-SCENARIOS = [("idle", sc_idle), ("during-initial-sync", sc_during_initial), ("during-sync", sc_during_sync), ("burst", sc_burst), ("sigint-during-sync", sc_sigint_during_sync)]
+def sc_single_events(sc, base, r, delete):
+    """every kind of change ALONE in its quiet period (nothing else in the burst that could stand in for its event): create, edit,
+    rename inside the tree, move into the tree from outside, and -- with --delete -- remove, move out of the tree (file and
+    directory: inotify reports only the FROM half)"""
+    args = ["--delete", "--force-delete"] if delete else []
+    put(base + "/src/a.txt", b"v1"); put(base + "/src/gone.txt", b"g"); put(base + "/src/out.txt", b"o"); put(base + "/src/sub/b.txt", b"b1")
+    put(base + "/src/old_name.txt", b"r"); put(base + "/src/outdir/x.txt", b"x"); os.makedirs(base + "/dst"); os.makedirs(base + "/elsewhere")
+    put(base + "/elsewhere/in.txt", b"coming in")
+    w = Watch(sc, base, args)
+    fails = []
+    if not w.wait_for("Watching"):
+        fails.append("watcher never became ready")
+    if wait_converged(w, delete) is None:
+        fails.append("initial sync did not converge")
+    steps = [("create", lambda: put(base + "/src/new.txt", b"n")),
+             ("edit", lambda: put(base + "/src/a.txt", b"v2 longer")),
+             ("rename inside the tree", lambda: os.rename(base + "/src/old_name.txt", base + "/src/renamed.txt")),
+             ("move into the tree", lambda: os.rename(base + "/elsewhere/in.txt", base + "/src/in.txt"))]
+    if delete:
+        steps += [("remove", lambda: os.remove(base + "/src/gone.txt")),
+                  ("move a file out of the tree", lambda: os.rename(base + "/src/out.txt", base + "/elsewhere/out.txt")),
+                  ("move a directory out of the tree", lambda: os.rename(base + "/src/outdir", base + "/elsewhere/outdir"))]
+    r.shuffle(steps)
+    for what, act in steps:
+        time.sleep(r.choice([0.7, 0.9, 1.3]))          # longer than the debounce: the change is alone in its burst
+        act()
+        if wait_converged(w, delete, deadline=12.0) is None:
+            fails.append("%s (the only change of its burst) was not propagated within 12 s" % what)
+            break
+    rc, secs = w.stop()
+    if rc != 0:
+        fails.append("exit status after SIGINT while idle: %s (%.1f s)" % (rc, secs))
+    return fails
+
+
+SCENARIOS = [("single-events", sc_single_events), ("idle", sc_idle), ("during-initial-sync", sc_during_initial), ("during-sync", sc_during_sync), ("burst", sc_burst), ("sigint-during-sync", sc_sigint_during_sync)]
 
 
 def run_scenario(sc, seed, idx):
@@ -236,11 +271,11 @@ def run(tier, seed):
     if not oki:
         res.violation("build", "build failed:\n" + outi[-3000:], no_input=True)
         return res.finish()
-    n = 10 if tier == "quick" else 60
+    n = 12 if tier == "quick" else 72
     viol, runs = [], []
     from concurrent.futures import ThreadPoolExecutor
     with vlib.Scratch() as sc:
-        with ThreadPoolExecutor(max_workers=5) as ex:
+        with ThreadPoolExecutor(max_workers=6) as ex:
             futs = [ex.submit(run_scenario, sc, seed, i) for i in range(n)]
             for i, f in enumerate(futs):
                 name, delete, fails, secs, log = f.result()
